@@ -204,6 +204,7 @@ def _real_spline(rng, nrng, n=None):
 
     n = n or rng.randint(2, 6)
     est = verde.Spline()
+    est.mindist = rng.choice([0, 0, 0.3, 2.0])  # the (deprecated but supported) mindist parameter
     est.force_coords_ = (nrng.uniform(-3, 3, n), nrng.uniform(-3, 3, n))
     est.force_ = nrng.uniform(-2, 2, n)
     est.region_ = (-3, 3, -3, 3)
